@@ -285,7 +285,7 @@ QUICK = {
            + _g('c03_make_unmake', [('w', 'pspecial'), ('b', 'ep')]),
     'C06': ['c06_wellformed_exact'] + _g('c06_semilegal_validator', [(sd, g) for sd in 'wb' for g in ('king', 'pawn', 'knight', 'bishop', 'rook', 'queen', 'ep')]
            + [('w', 'castling'), ('b', 'castling'), ('w', 'pspecial'), ('b', 'foreign')]) + ['c06_semilegal_gen_pawns_all_w', 'c06_semilegal_gen_pawns_all_b'],
-    'C07': ['c07_outcome_classification_w', 'c07_outcome_classification_b', 'c07_outcome_lone_king_b', 'c07_castling_never_only_move_w', 'c07_has_legal_moves_wiring_pawns_w',
+    'C07': ['c07_outcome_classification_w', 'c07_outcome_classification_b', 'c07_castling_never_only_move_w', 'c07_has_legal_moves_wiring_pawns_w',
             'c07_has_legal_moves_wiring_pawns_b'],
     'C09': ['c09_san_simple_pawn_refused', 'c09_san_into_move_castling_w', 'c09_san_into_move_pawnmove_b', 'c09_san_into_move_pawncapture_w',
             'c09_san_from_move_w_ep', 'c09_san_from_move_b_castling', 'c12_san_parse_total_5'],
@@ -295,7 +295,7 @@ QUICK = {
     'C12': ['c12_coord_parse', 'c12_coord_roundtrip', 'c12_color_parse', 'c12_cell_parse', 'c12_castling_parse', 'c12_castling_roundtrip',
             'c12_san_parse_total_5', 'c10_uci_parse_exact'],
     'C13': ['c13_chain_step_s0_p0_castling', 'c13_chain_push_pop_s0_p0_castling', 'c13_chain_push_pop_s1_p0_ep', 'c13_chain_step_s0_p2_other',
-            'c13_chain_step_s5_p4_other', 'c13_chain_eq_s0_pawn_v1', 'c13_chain_eq_s0_king_v0'],
+            'c13_chain_step_s5_p3_other', 'c13_chain_eq_s0_pawn_v1', 'c13_chain_eq_s0_king_v0'],
     'C14': ['c14_outcome_filter_table', 'c14_chain_outcome_precedence', 'c07_outcome_classification_w', 'c07_outcome_lone_king_b', 'c13_chain_step_s5_p4_other', 'c13_chain_step_s5_p4_knight_rep',
             'c13_chain_step_s3_p0_other'],
     'C15': ['c15_leapers_exact', 'c15_between_exact', 'c15_bishop_exact'],
